@@ -99,6 +99,7 @@ type stackKey struct {
 	probe, ph, custom bool
 	prefix            string
 	late              bool // the custom injector is appended to the handler after construction
+	first             bool // the custom injector is listed before the default three (the order of the list is the user's)
 }
 type connKey struct {
 	sk    stackKey
@@ -253,7 +254,7 @@ func main() {
 	}
 	groups := map[connKey][]Scenario{}
 	for _, s := range scs {
-		k := connKey{stackKey{s.Req.Probe, s.Req.PreserveHost, s.Req.Custom != "absent", s.Req.Prefix, s.Req.Custom != "absent" && (s.ID/2)%2 == 0}, s.Req.Proto, s.Req.Kind, s.Req.Proto == "h2" && s.ID%2 == 1}
+		k := connKey{stackKey{s.Req.Probe, s.Req.PreserveHost, s.Req.Custom != "absent", s.Req.Prefix, s.Req.Custom != "absent" && (s.ID/2)%2 == 0, s.Req.Custom != "absent" && (s.ID/2)%2 == 1 && (s.ID/4)%2 == 0}, s.Req.Proto, s.Req.Kind, s.Req.Proto == "h2" && s.ID%2 == 1}
 		groups[k] = append(groups[k], s)
 	}
 	stacks := map[stackKey]*stack.Stack{}
@@ -265,6 +266,8 @@ func main() {
 		var late []reverseproxy.HeaderInjector
 		if k.sk.custom && k.sk.late {
 			late = append(late, reverseproxy.HeaderInjector(customInjector{})) // user code that extends the handler after it was built
+		} else if k.sk.custom && k.sk.first {
+			inj = append([]reverseproxy.HeaderInjector{customInjector{}}, inj...)
 		} else if k.sk.custom {
 			inj = append(inj, reverseproxy.HeaderInjector(customInjector{}))
 		}
